@@ -27,4 +27,8 @@ ls build/vdeps/target/debug/deps/libwasmparser-*.rlib build/vdeps/target/debug/d
 printf 'use vstd::prelude::*;\nverus!{ proof fn t() ensures 1+1==2int {} }\nfn main(){}\n' > build/warm.rs
 verus build/warm.rs >/dev/null 2>&1 || { echo "verus does not run"; exit 1; }
 rm -f build/warm.rs
-echo "setup ok"
+echo "verus ok"
+# warm the Kani build of /repo (dependency artifacts; the crate itself is rebuilt by every check) and the replay crate
+( cd /repo && CARGO_TARGET_DIR=/verif/build/kani-target RUSTFLAGS="--cfg wirm_verif" timeout 1500 cargo kani --exact --harness verif_kani::k0_smoke --output-format terse >/dev/null 2>&1 ) || echo "warning: kani warm-up failed"
+( cd /verif/replay && CARGO_TARGET_DIR=/verif/build/replay-target RUSTFLAGS="--cfg wirm_verif" cargo build --offline -q >/dev/null 2>&1 ) || echo "warning: replay crate warm-up failed"
+echo "setup complete"
